@@ -174,7 +174,13 @@ def cli_work(arg):
         out["note"] = "stack overflow"
         return out
     if o.crashed:
-        out["viol"] = ("crash", "crash (exit %s): %s" % (o.code, o.err.decode("utf-8", "replace")[-200:]))
+        errtxt = o.err.decode("utf-8", "replace")
+        if acc and not re.search(r"panicked at [^\n]*(src/lexer|src/parser|lalrpop|src/main\.rs)", errtxt):
+            # the parser accepted the whole file (hook) and the process died while *running* it (a mutated program can print or compare
+            # a container that holds itself): that is evaluation, outside C03's statement; C02 judges crashes of running programs
+            out["note"] = "accepted-program-died-while-running (not judged: evaluation, not the front end)"
+            return out
+        out["viol"] = ("crash", "crash (exit %s): %s" % (o.code, errtxt[-200:]))
         return out
     if not acc:
         m = HDR1.match(o.err.decode("utf-8", "replace"))
